@@ -215,6 +215,35 @@ class Runner:
                         print(l2)
 
 
+def make_jobs(progs, exes, oracle, quick, hs_startup, free_startup, threads, reps, full_upto, maxdev, hs_deadline, free_deadline, extra=()):
+    """-> (hsched jobs, free-running jobs, jobs of programs covered by a recorded finding)"""
+    hs_jobs, free_jobs, kn_jobs = [], [], []
+    for be, exe in exes.items():
+        normal = []
+        for p in progs:
+            if be not in p.backends:
+                continue
+            kn = finding_for(p, be)
+            flagged = bool(p.traits(be))
+            common = ['--backend', be, '--oracle', str(oracle)] + list(extra)
+            j = dict(exe=exe, args=['--mode', 'hs', '--programs', p.name, '--startup', hs_startup, '--full-upto', str(full_upto), '--maxdev', str(maxdev),
+                                    '--maxruns', '60000' if quick else '2000000', '--deadline', str(hs_deadline)] + common,
+                     label='%s-%s-hs' % (p.name, be), known=kn, timeout=hs_deadline + 120)
+            (kn_jobs if flagged else hs_jobs).append(j)
+            if not flagged:
+                normal.append(p.name)
+            elif not quick or be == 'ht':
+                kn_jobs.append(dict(exe=exe, args=['--mode', 'free', '--programs', p.name, '--scheds', 'lfq', '--threadlist', '2', '--reps', '1', '--startup', '0'] + common,
+                                    label='%s-%s-free' % (p.name, be), known=kn, limit=1.5, timeout=120))
+        for s in SCHEDS:
+            for t in threads:
+                free_jobs.append(dict(exe=exe, args=['--mode', 'free', '--programs', ','.join(normal), '--sched', s, '--threads', str(t), '--reps', str(reps),
+                                                     '--startup', free_startup, '--deadline', str(free_deadline), '--backend', be, '--oracle', str(oracle), '--spin', '0' if t == 1 else '30'] + list(extra),
+                                      label='free-%s-%s-%d' % (be, s, t), timeout=free_deadline + 300))
+    return hs_jobs, free_jobs, kn_jobs
+
+
+
 def replay(ctx, path, obj, family):
     """Generic replay: rebuild the program named in the replay file with the current tree, re-run exactly that case."""
     progs = [p for p in family if p.name == obj['program']]
